@@ -381,6 +381,24 @@ lemma_s!(s_long_4_2, GLong, sym_long, 1, 256, T_M256, 4, 2);
 //@ h=s_longl_1_8 props=C01,C03 cfgs=K0 tier=q t=500 | funcs: inner::Generator<LongWithLongChecksum>::update | bound: tail_len0=1, 8 bytes | stubs: mapping + increment logging stubs
 lemma_s!(s_longl_1_8, GLongL, sym_long_l, 3, 256, T_M256, 1, 8);
 
+// thorough tier: longer pieces and every remaining (tail, n) class on the other variants
+//@ h=s_short_0_16 props=C01,C03 cfgs=K0 tier=t t=1800 | funcs: inner::Generator<Short>::update | bound: tail_len0=0, 16 bytes | stubs: mapping + increment logging stubs
+lemma_s!(s_short_0_16, GShort, sym_short, 1, 48, T_M48, 0, 16);
+//@ h=s_short_4_24 props=C01,C03 cfgs=K0 tier=t t=2400 | funcs: inner::Generator<Short>::update | bound: tail_len0=4, 24 bytes | stubs: mapping + increment logging stubs
+lemma_s!(s_short_4_24, GShort, sym_short, 1, 48, T_M48, 4, 24);
+//@ h=s_normal_0_12 props=C01,C03 cfgs=K0 tier=t t=1800 | funcs: inner::Generator<Normal>::update | bound: tail_len0=0, 12 bytes | stubs: mapping + increment logging stubs
+lemma_s!(s_normal_0_12, GNormal, sym_normal, 1, 128, T_M256, 0, 12);
+//@ h=s_normall_2_5 props=C01,C03 cfgs=K0 tier=t t=1800 | funcs: inner::Generator<NormalWithLongChecksum>::update | bound: tail_len0=2, 5 bytes | stubs: mapping + increment logging stubs
+lemma_s!(s_normall_2_5, GNormalL, sym_normal_l, 3, 128, T_M256, 2, 5);
+//@ h=s_long_0_4 props=C01,C03 cfgs=K0 tier=t t=900 | funcs: inner::Generator<Long>::update | bound: tail_len0=0, 4 bytes | stubs: mapping + increment logging stubs
+lemma_s!(s_long_0_4, GLong, sym_long, 1, 256, T_M256, 0, 4);
+//@ h=s_long_3_9 props=C01,C03 cfgs=K0 tier=t t=1800 | funcs: inner::Generator<Long>::update | bound: tail_len0=3, 9 bytes | stubs: mapping + increment logging stubs
+lemma_s!(s_long_3_9, GLong, sym_long, 1, 256, T_M256, 3, 9);
+//@ h=s_longl_4_3 props=C01,C03 cfgs=K0 tier=t t=900 | funcs: inner::Generator<LongWithLongChecksum>::update | bound: tail_len0=4, 3 bytes | stubs: mapping + increment logging stubs
+lemma_s!(s_longl_4_3, GLongL, sym_long_l, 3, 256, T_M256, 4, 3);
+//@ h=s_longl_0_6 props=C01,C03 cfgs=K0 tier=t t=1200 | funcs: inner::Generator<LongWithLongChecksum>::update | bound: tail_len0=0, 6 bytes | stubs: mapping + increment logging stubs
+lemma_s!(s_longl_0_6, GLongL, sym_long_l, 3, 256, T_M256, 0, 6);
+
 //@ h=c_short_4_5 props=C03 cfgs=K0 tier=q t=400 | funcs: inner::Generator<Short>::update (whole piece vs byte-by-byte with interleaved empty update) | bound: tail_len0=4, 5 bytes; real code on both sides | stubs: mapping + increment logging stubs
 lemma_c!(c_short_4_5, GShort, sym_short, 4, 5);
 //@ h=c_short_0_9 props=C03 cfgs=K0 tier=q t=500 | funcs: inner::Generator<Short>::update | bound: tail_len0=0, 9 bytes | stubs: mapping + increment logging stubs
@@ -1030,6 +1048,31 @@ fn len_processed() {
         && <GShort as GeneratorType>::MAX == REF_MAX_LEN);
     assert!(<GLong as GeneratorType>::MIN == 50 && <GLong as GeneratorType>::MIN_CONSERVATIVE == 128
         && <GLong as GeneratorType>::MAX == REF_MAX_LEN);
+}
+
+//@ h=c03_clone props=C03 cfgs=K1 tier=q t=300 | funcs: <inner::Generator<...> as Clone>::clone, Generator<T>::clone (public wrapper) | bound: arbitrary state of the 3-byte-checksum 256-bucket generator: the clone is field-wise identical (symbolic counter index) and later updates of the clone do not touch the original
+#[kani::proof]
+#[kani::unwind(12)]
+#[kani::stub(crate::pearson::tlsh_b_mapping_48, stub_map48)]
+#[kani::stub(crate::pearson::tlsh_b_mapping_256, stub_map256)]
+#[kani::stub(crate::buckets::FuzzyHashBucketsData::increment, stub_inc)]
+fn c03_clone() {
+    let g = sym_long_l(1000, 4);
+    let mut c = g.clone();
+    let k: usize = kani::any();
+    kani::assume(k < g.buckets.buckets.len());
+    assert!(c.buckets.buckets[k] == g.buckets.buckets[k]);
+    assert!(c.len == g.len && c.tail_len == g.tail_len && c.tail == g.tail && c.checksum == g.checksum);
+    let before = (g.len, g.tail, g.checksum);
+    unsafe {
+        RET = kani::any();
+    }
+    log_reset();
+    let piece: [u8; 2] = kani::any();
+    c.update(&piece);
+    assert!((g.len, g.tail, g.checksum) == before);
+    assert!(g.buckets.buckets[k] == c.buckets.buckets[k]); // (increment is a logging stub here)
+    assert!(c.len == g.len + 2);
 }
 
 // ------------------------------------------------------------------ C18: generator never allocates
